@@ -95,6 +95,7 @@ class Viol:
     def __init__(self):
         self.list = []
         self.counters = {}
+        self.states = set()
 
     def add(self, sig, trigger, detail):
         if not any(v['sig'] == sig and v['trigger'] == trigger for v in self.list):
